@@ -555,6 +555,12 @@ func (db *SpecDB) loadSpecFile(file, pkgPath string) error {
 			db.Contracts[key] = c
 			cur = c
 		case "pure", "uninterp":
+			if word == "pure" && strings.TrimSpace(rest) == "" && cur != nil {
+				if err := parseClause(cur, word, rest); err != nil {
+					return fmt.Errorf("%s: %v", where, err)
+				}
+				continue
+			}
 			// spec function: pure func name(a T, b U) R = expr
 			w2, r2 := splitWord(rest)
 			if w2 == "func" {
